@@ -84,10 +84,17 @@ ImplTag(b, p) ==
        ELSE IF ~FitsU32(v.w) THEN IErr(p)                      \* (v >> 3) > MaxTagValue
        ELSE Out("ok", <<KeyFn(v.w), KeyWt(v.w)>>, <<>>, p + v.n)
 
-ImplSkip(b, p, mode, fn, wt) ==
+\* the key DecodeTag read last: field number, wire type, where it starts and ends (none: en = -1)
+NoTag == [fn |-> -1, wt |-> -1, s |-> -1, en |-> -1]
+
+\* Skip(tag, wt): the raw field starts at the key DecodeTag has just read when that key is this field's (its actual extent: a key is not
+\* necessarily minimal, d4693b2); otherwise SizeOfTagKey(tag) bytes before the cursor
+ImplSkip(b, p, mode, fn, wt, lt) ==
   IF p >= Len(b) THEN IErr(p)
-  ELSE LET sz  == SigLen(KeyWord(fn, 0))
-           bof == Max0(p - sz)
+  ELSE LET sz0 == SigLen(KeyWord(fn, 0))
+           use == lt.en = p /\ lt.s < p /\ fn >= 0 /\ lt.fn = fn /\ lt.wt = wt
+           bof == IF use THEN lt.s ELSE Max0(p - sz0)
+           sz  == IF use THEN p - lt.s ELSE sz0
            chk == IF mode = ModeSafe
                   THEN LET v == IVarint(b, bof) IN
                        v.n # 0 /\ v.n = sz /\ FitsU32(v.w) /\ KeyFn(v.w) = fn /\ KeyWt(v.w) = wt
@@ -104,6 +111,9 @@ ImplSkip(b, p, mode, fn, wt) ==
                IN IF ~ext.ok \/ p + ext.len > Len(b) THEN IErr(p)
                   ELSE Out("ok", Slice(b, bof, p + ext.len), <<>>, p + ext.len)
 
+\* the remembered key after a call
+NextTag(lt, p, op, o) == IF op = "Tag" /\ o.st = "ok" THEN [fn |-> o.val[1], wt |-> o.val[2], s |-> p, en |-> o.off] ELSE lt
+
 ImplSeek(b, p, offset, whence) ==
   LET t == SeekTarget(b, p, offset, whence) IN
   IF whence \in 0..2 /\ t \in 0..Len(b) THEN Out("ok", <<>>, <<>>, t) ELSE IErr(p)
@@ -115,7 +125,7 @@ ImplStep(b, p, mode, op, e) ==
     [] op \in LenOps    -> ImplBytes(b, p)
     [] op \in PackedOps -> ImplPacked(b, p, op)
     [] op = "Tag"       -> ImplTag(b, p)
-    [] op = "Skip"      -> ImplSkip(b, p, mode, e.fn, e.wt)
+    [] op = "Skip"      -> ImplSkip(b, p, mode, e.fn, e.wt, e.lt)
     [] op = "Seek"      -> ImplSeek(b, p, e.i1, e.i2)
     [] op = "Reset"     -> Out("ok", <<>>, <<>>, 0)
     [] op = "SetMode"   -> Out("ok", <<>>, <<>>, p)
